@@ -17,3 +17,15 @@ Print Assumptions C17_tree_vs_rewriting.
 Theorem C17_marks_sound : forall (R : list irule) (S : N) (it : mitem), In it (marks R S) -> Sem R it.
 Proof. exact marks_sound. Qed.
 Print Assumptions C17_marks_sound.
+
+(* remove_useless_rules (rules all of whose nonterminals are generating when stacks are ignored and reachable from the start
+   nonterminal are kept): the derivable words with an empty stack, hence the emptiness verdict, are unchanged, for every rule set *)
+From PFL Require Import Model.IgUseless Proofs.IgUseless.
+Theorem C17_remove_useless_rules : forall (R : list irule) (S : N),
+  (forall w, ider (ig_remove_useless R S) S nil w <-> ider R S nil w) /\
+  (ig_nonempty (ig_remove_useless R S) S <-> ig_nonempty R S) /\
+  ig_is_empty (ig_remove_useless R S) S = ig_is_empty R S.
+Proof.
+  intros R S. split; [exact (remove_useless_lang R S)|]. split; [exact (remove_useless_nonempty R S)|exact (remove_useless_is_empty R S)].
+Qed.
+Print Assumptions C17_remove_useless_rules.
